@@ -55,3 +55,18 @@ Proof.
   unfold model_case_gen, model_call_gen. cbn [c_obs].
   destruct (run_sync_gen frepr cf false (i_opts i) (i_entry i) (i_src i) (i_dst i)). reflexivity.
 Qed.
+
+(* /repo as it is: the comparison no longer inherits filecmp's ignore list *)
+Lemma ws_superset_current : forall frepr p fuel o deep sdir ddir subdir d' c m,
+  wf_node (Dir sdir) = true -> o_dry_run o = false ->
+  sync_ws frepr cfg_current fuel o deep sdir ddir subdir = (d', None) ->
+  lookup_path p (Dir sdir) = Some (File c m) -> absent_in p ddir = true ->
+  (o_recursive o = true \/ length p = 1%nat) -> clear_path cfg_current o p = true ->
+  lookup_path p (Dir d') = Some (File c NOW).
+Proof. intros frepr. apply (ws_superset_fixed frepr cfg_current). reflexivity. Qed.
+
+(* what "excluded" means in /repo now: a user pattern matches, or the name IS the state point / document file *)
+Lemma excluded_current : forall o n,
+  excluded cfg_current o n =
+  (o_exclude o n || str_eqb FN_SP n || match o_docsync o with DS_copy => false | _ => str_eqb FN_DOC n end).
+Proof. reflexivity. Qed.
